@@ -256,6 +256,67 @@ class AugToAssign(ast.NodeTransformer):
         return node
 
 
+class ReorderKeywords(ast.NodeTransformer):
+    """T14: explicit keyword arguments of calls in reverse order (no ** in between is crossed)."""
+    def visit_Call(self, node):
+        self.generic_visit(node)
+        if len(node.keywords) >= 2 and all(k.arg is not None for k in node.keywords) and \
+                all(isinstance(k.value, (ast.Name, ast.Constant, ast.Attribute)) for k in node.keywords):
+            node.keywords = list(reversed(node.keywords))
+        return node
+
+
+class SplitAnd(ast.NodeTransformer):
+    """T17: `if a and b: X` (no else) -> `if a: if b: X`."""
+    def visit_If(self, node):
+        self.generic_visit(node)
+        if not node.orelse and isinstance(node.test, ast.BoolOp) and isinstance(node.test.op, ast.And) \
+                and len(node.test.values) == 2:
+            inner = ast.If(test=node.test.values[1], body=node.body, orelse=[])
+            return ast.copy_location(ast.If(test=node.test.values[0], body=[inner], orelse=[]), node)
+        return node
+
+
+class GuardClause(ast.NodeTransformer):
+    """T19: a function ending in `if c: <block>` (no else, no value returned) -> `if not c: return` + block."""
+    def visit_FunctionDef(self, node):
+        self.generic_visit(node)
+        last = node.body[-1]
+        if isinstance(last, ast.If) and not last.orelse and len(node.body) >= 2 and \
+                not any(isinstance(x, (ast.Yield, ast.YieldFrom)) for x in ast.walk(node)) and \
+                not isinstance(last.body[-1], (ast.Return, ast.Raise)):
+            guard = ast.If(test=ast.UnaryOp(op=ast.Not(), operand=last.test), body=[ast.Return(value=None)], orelse=[])
+            node.body = node.body[:-1] + [guard] + last.body
+        return node
+
+    visit_AsyncFunctionDef = visit_FunctionDef
+
+
+class CircuitAlias(ast.NodeTransformer):
+    """T15: methods using self.circuit at least twice get `circuit_ = self.circuit` first."""
+    def visit_FunctionDef(self, node):
+        self.generic_visit(node)
+        uses = [x for x in ast.walk(node) if isinstance(x, ast.Attribute) and x.attr == 'circuit'
+                and isinstance(x.value, ast.Name) and x.value.id == 'self' and isinstance(x.ctx, ast.Load)]
+        nested = any(isinstance(x, (ast.FunctionDef, ast.AsyncFunctionDef, ast.Lambda)) and x is not node
+                     for x in ast.walk(node))
+        if len(uses) >= 2 and not nested and node.name != '__init__':
+            class R(ast.NodeTransformer):
+                def visit_Attribute(s2, a):
+                    s2.generic_visit(a)
+                    if a.attr == 'circuit' and isinstance(a.value, ast.Name) and a.value.id == 'self' \
+                            and isinstance(a.ctx, ast.Load):
+                        return ast.copy_location(ast.Name(id='circuit_', ctx=ast.Load()), a)
+                    return a
+            body = [R().visit(st) for st in node.body]
+            first = 1 if (body and isinstance(body[0], ast.Expr) and isinstance(body[0].value, ast.Constant)) else 0
+            alias = ast.parse('circuit_ = self.circuit').body[0]
+            node.body = body[:first] + [alias] + body[first:]
+        return node
+
+    visit_AsyncFunctionDef = visit_FunctionDef
+
+
 TRANS = {
     'T1': lambda t: t,
     'T2': lambda t: RenameLocals(t).visit(t),
@@ -266,6 +327,10 @@ TRANS = {
     'T8': lambda t: Annotate().visit(t),
     'T12': lambda t: ElseAfterReturn().visit(t),
     'T13': lambda t: AugToAssign().visit(t),
+    'T14': lambda t: ReorderKeywords().visit(t),
+    'T15': lambda t: CircuitAlias().visit(t),
+    'T17': lambda t: SplitAnd().visit(t),
+    'T19': lambda t: GuardClause().visit(t),
 }
 
 
